@@ -1077,6 +1077,8 @@ fn run_inner(sc: &J) -> Result<Option<String>, String> {
             let ok_serde = match sc["as"].as_str().unwrap_or("json") {
                 "bytes" => rd.read_deser::<serde_bytes::ByteBuf>(&mut r1).is_ok(),
                 "unit_vec" => rd.read_deser::<Vec<()>>(&mut r1).is_ok(),
+                // record r { ticks: array<null>, count: int } (a typed struct: records cannot be deserialized into serde_json::Value)
+                "rec_ticks" => { #[derive(serde::Deserialize)] #[serde(rename = "r")] #[allow(dead_code)] struct R { ticks: Vec<()>, count: i32 } rd.read_deser::<R>(&mut r1).is_ok() }
                 _ => rd.read_deser::<serde_json::Value>(&mut r1).is_ok(),
             };
             let used_serde = bytes.len() - r1.len();
